@@ -187,35 +187,122 @@ pub fn run_huge_read(c: &mut Case) {
     c.nontrivial(crate::prng::hash_str("huge-read"));
 }
 
-/// Validating sink: checks, byte by byte, that what the writer hands over is the expected stream; holds nothing.
+/// Validating sink: a streaming reference parser that holds nothing. It accepts any size-field widths the writer
+/// chooses (no property pins the default width): Segment with an unknown size of any width, then clusters of known size,
+/// each holding exactly one Block whose declared size is `p` and whose payload is the fill byte of that cluster, then
+/// TrackType = 5. Every declared size has to describe exactly what follows.
+enum SinkState {
+    Header,                                  // collecting the id + size field of the next element
+    Payload { left: u64, fill: u8 },         // inside a Block payload
+    Value { left: usize, acc: u64 },         // inside the TrackType payload
+    Done,
+}
+
 struct CheckSink {
-    expect: GenRead,
+    st: SinkState,
+    hdr: Vec<u8>,
+    seg_seen: bool,
+    clu_left: Option<u64>, // bytes left in the cluster that is open
+    clusters: u64,
+    p: u64,
     pos: u64,
-    mismatch: Option<(u64, u8, u8)>,
+    problem: Option<String>,
     flushes: u64,
+}
+
+impl CheckSink {
+    fn new(p: u64) -> Self {
+        CheckSink { st: SinkState::Header, hdr: Vec::new(), seg_seen: false, clu_left: None, clusters: 0, p, pos: 0, problem: None, flushes: 0 }
+    }
+    fn header_complete(&mut self, id: u64, size: crate::refcodec::RSize, hdr_len: u64) {
+        use crate::refcodec::RSize;
+        let at = self.pos;
+        if let Some(left) = self.clu_left.as_mut() {
+            // inside a cluster: exactly one Block
+            if hdr_len > *left {
+                self.problem = Some(format!("header at {} overruns its cluster", at));
+                return;
+            }
+            *left -= hdr_len;
+            match (id, size) {
+                (BLOCK, RSize::Known(v)) if v == self.p && v == *left => {
+                    *left = 0;
+                    self.st = SinkState::Payload { left: v, fill: (self.clusters as u8).wrapping_mul(31).wrapping_add(7) };
+                }
+                (i, sz) => self.problem = Some(format!("inside cluster {} at {}: element {:x} with size {:?}, expected a Block of {} bytes filling the cluster ({} bytes left)", self.clusters, at, i, sz, self.p, left)),
+            }
+            return;
+        }
+        match (id, size) {
+            (SEG, RSize::Unknown) if !self.seg_seen => self.seg_seen = true,
+            (CLU, RSize::Known(v)) if self.seg_seen => self.clu_left = Some(v),
+            (TT, RSize::Known(v)) if self.seg_seen && (1..=8).contains(&v) => self.st = SinkState::Value { left: v as usize, acc: 0 },
+            (i, sz) => self.problem = Some(format!("at {}: element {:x} with size {:?} is not what the calls wrote", at, i, sz)),
+        }
+    }
 }
 
 impl Write for CheckSink {
     fn write(&mut self, buf: &[u8]) -> std::io::Result<usize> {
-        if self.mismatch.is_none() {
-            // the expected bytes for this window come from the generator (run-wise, cheap), then one slice comparison
-            let mut want = vec![0u8; buf.len()];
-            let mut got = 0usize;
-            while got < want.len() {
-                let n = self.expect.read(&mut want[got..]).unwrap_or(0);
-                if n == 0 {
-                    break;
+        use crate::refcodec::{dec_id, dec_size, Dec};
+        let mut i = 0usize;
+        while i < buf.len() && self.problem.is_none() {
+            match &mut self.st {
+                SinkState::Header => {
+                    self.hdr.push(buf[i]);
+                    i += 1;
+                    self.pos += 1;
+                    let parsed = match dec_id(&self.hdr) {
+                        Dec::Ok(id, il) => match dec_size(&self.hdr[il..]) {
+                            Dec::Ok(sz, sl) => Some(Ok((id, sz, (il + sl) as u64))),
+                            Dec::NeedMore => None,
+                            Dec::Invalid => Some(Err("invalid size field")),
+                        },
+                        Dec::NeedMore => None,
+                        Dec::Invalid => Some(Err("invalid id")),
+                    };
+                    match parsed {
+                        None => {}
+                        Some(Err(e)) => self.problem = Some(format!("{} in the header that ends at byte {}", e, self.pos)),
+                        Some(Ok((id, sz, hl))) => {
+                            self.hdr.clear();
+                            self.header_complete(id, sz, hl);
+                        }
+                    }
                 }
-                got += n;
-            }
-            if got < buf.len() {
-                self.mismatch = Some((self.pos + got as u64, 0, buf[got]));
-            } else if want[..] != buf[..] {
-                let i = want.iter().zip(buf.iter()).position(|(a, b)| a != b).unwrap();
-                self.mismatch = Some((self.pos + i as u64, want[i], buf[i]));
+                SinkState::Payload { left, fill } => {
+                    let k = (*left).min((buf.len() - i) as u64) as usize;
+                    if let Some(bad) = buf[i..i + k].iter().position(|b| *b != *fill) {
+                        self.problem = Some(format!("payload byte {} of cluster {} is {:02x}, expected {:02x}", self.pos + bad as u64, self.clusters, buf[i + bad], *fill));
+                        break;
+                    }
+                    *left -= k as u64;
+                    i += k;
+                    self.pos += k as u64;
+                    if *left == 0 {
+                        self.clusters += 1;
+                        self.clu_left = None;
+                        self.st = SinkState::Header;
+                    }
+                }
+                SinkState::Value { left, acc } => {
+                    *acc = (*acc << 8) | buf[i] as u64;
+                    *left -= 1;
+                    i += 1;
+                    self.pos += 1;
+                    if *left == 0 {
+                        if *acc != 5 {
+                            self.problem = Some(format!("TrackType decodes to {} instead of 5", acc));
+                        }
+                        self.st = SinkState::Done;
+                    }
+                }
+                SinkState::Done => {
+                    self.problem = Some(format!("bytes after the end of the document at {}", self.pos));
+                }
             }
         }
-        self.pos += buf.len() as u64;
+        self.pos += (buf.len() - i) as u64;
         Ok(buf.len())
     }
     fn flush(&mut self) -> std::io::Result<()> {
@@ -228,44 +315,39 @@ pub fn run_huge_write(c: &mut Case) {
     crate::gen::z_test().install();
     let p: usize = 1 << 20;
     let n: u64 = (1u64 << 32) / p as u64 + 2 + c.rng.below(4);
-    // expected bytes: Segment(unknown, 8-byte all-ones) [ n x Cluster(known)[Block(p)] , TrackType(5) ]
-    let mut head = id_bytes(SEG);
-    head.extend([0x01, 0xFF, 0xFF, 0xFF, 0xFF, 0xFF, 0xFF, 0xFF]);
-    let mut block_hdr = id_bytes(BLOCK);
-    block_hdr.extend(crate::refcodec::enc_vint(p as u64, 3)); // 2^20 needs 3 bytes (default = minimal)
-    let clu_content = (block_hdr.len() + p) as u64;
-    let mut unit_hdr = id_bytes(CLU);
-    unit_hdr.extend(crate::refcodec::enc_vint(clu_content, crate::refcodec::min_size_width(clu_content).unwrap()));
-    unit_hdr.extend(&block_hdr);
-    let expect = GenRead { head, unit_hdr, p, n, tail: vec![0x83, 0x81, 0x05], pos: 0 };
-    let total = expect.total();
-    let wit = |msg: &str| J::obj().set("scenario", J::s("writer output longer than 2^32 bytes through an unknown-size master")).set("expected_stream_bytes", J::s(total.to_string())).set("clusters", J::u(n as usize)).set("problem", J::s(msg));
+    // Segment(unknown size)[ n x Cluster(known)[Block(p)] , TrackType(5) ], judged structurally by the sink
+    let total: u64 = n * (p as u64);
+    let wit = |msg: &str| J::obj().set("scenario", J::s("writer output longer than 2^32 bytes through an unknown-size master")).set("payload_bytes_written", J::s(total.to_string())).set("clusters", J::u(n as usize)).set("problem", J::s(msg));
     c.eval();
     let r = guard(BUDGET, || {
-        let mut w = TagWriter::new(CheckSink { expect, pos: 0, mismatch: None, flushes: 0 });
+        let mut w = TagWriter::new(CheckSink::new(p as u64));
         w.write_advanced(&DynTag { id: SEG, val: DVal::M(Master::Start) }, WriteOptions::is_unknown_sized_element()).map_err(|e| format!("{:?}", e))?;
         for i in 0..n {
             let v = (i as u8).wrapping_mul(31).wrapping_add(7);
             let cl = DynTag { id: CLU, val: DVal::M(Master::Full(vec![DynTag { id: BLOCK, val: DVal::B(vec![v; p]) }])) };
             w.write(&cl).map_err(|e| format!("cluster {}: {:?}", i, e).chars().take(200).collect::<String>())?;
-            if w.get_ref().mismatch.is_some() {
+            if w.get_ref().problem.is_some() {
                 break;
             }
         }
         w.write(&DynTag { id: TT, val: DVal::U(5) }).map_err(|e| format!("{:?}", e))?;
         let sink = w.into_inner().map_err(|e| format!("into_inner: {:?}", e))?;
-        Ok::<(u64, Option<(u64, u8, u8)>), String>((sink.pos, sink.mismatch))
+        let complete = matches!(sink.st, SinkState::Done);
+        Ok::<(u64, u64, bool, Option<String>), String>((sink.pos, sink.clusters, complete, sink.problem))
     });
     match r {
         Err(cg) => c.violation(format!("C01/huge-stream/writer-{}", cg.sig()), cg.text(), wit("panic or budget")),
-        Ok(Err(e)) => c.violation("C01/huge-stream/writer-rejected", e.clone(), wit(&e)),
-        Ok(Ok((pos, mismatch))) => {
-            if let Some((at, want, got)) = mismatch {
-                let m = format!("byte {} of the output is {:02x}, expected {:02x}", at, got, want);
-                c.violation("C01/huge-stream/bytes-differ", m.clone(), wit(&m));
-            } else if pos != total {
-                let m = format!("{} bytes were written, expected {}", pos, total);
-                c.violation("C01/huge-stream/length-differs", m.clone(), wit(&m));
+        // the property is conditional on acceptance: a writer that refuses a conformant call makes the case vacuous
+        Ok(Err(e)) => {
+            c.count("vacuous_huge_stream_writer_rejected");
+            let _ = e;
+        }
+        Ok(Ok((pos, clusters, complete, problem))) => {
+            if let Some(m) = problem {
+                c.violation("C01/huge-stream/output-does-not-parse-to-the-tags-written", m.clone(), wit(&m));
+            } else if !complete || clusters != n || pos <= (1u64 << 32) {
+                let m = format!("{} bytes were written holding {} complete clusters (document complete: {}); {} clusters and TrackType were written", pos, clusters, complete, n);
+                c.violation("C01/huge-stream/output-incomplete", m.clone(), wit(&m));
             } else {
                 c.count("huge_streams_written");
             }
